@@ -404,6 +404,85 @@ class _Adapter:
                 fn.cy_locals[n.target.id] = n.cy_type
         return fn
 
+    # -- cdef functions, global / nonlocal (promoted from the C13/C19 rule files) ------
+    _C_ARITH = None
+
+    @classmethod
+    def _c_arith(cls):
+        if cls._C_ARITH is None:
+            names = {'signed char', 'unsigned char', 'char', 'short', 'unsigned short', 'int', 'unsigned int', 'long',
+                     'unsigned long', 'long long', 'unsigned long long', 'Py_ssize_t', 'ssize_t', 'size_t', 'bint',
+                     'float', 'double', 'long double', 'np.intp_t', 'np.npy_intp', 'np.uintp_t', 'np.long_t',
+                     'np.ulong_t', 'np.longlong_t', 'np.ulonglong_t', 'np.int_t', 'np.uint_t', 'np.float_t',
+                     'np.float32_t', 'np.float64_t', 'np.double_t', 'np.npy_float32', 'np.npy_float64',
+                     'np.npy_double', 'np.longdouble_t'}
+            for pat in ('np.%sint%d_t', 'np.npy_%sint%d', 'numpy.%sint%d_t', '%sint%d_t'):
+                for sg in ('', 'u'):
+                    for w in (8, 16, 32, 64):
+                        names.add(pat % (sg, w))
+            cls._C_ARITH = names
+        return cls._C_ARITH
+
+    def _c_scalar(self, t):
+        return t is not None and not getattr(t, 'is_buffer', False) and not getattr(t, 'pointer', False) \
+            and getattr(t, 'text', None) in self._c_arith()
+
+    def s_GlobalNode(self, cy):
+        return ast.Global(names=[str(x) for x in cy.names])
+
+    def s_NonlocalNode(self, cy):
+        return ast.Nonlocal(names=[str(x) for x in cy.names])
+
+    def s_CFuncDefNode(self, cy):
+        """`cdef [inline] T f(T a, ...) [nogil]: body` as a FunctionDef marked cy_cdef.  Binding a C
+        scalar parameter and returning a C scalar are CONVERSIONS: reads of such parameters and the
+        returned expressions are wrapped in explicit casts so that neither the rules nor the helper
+        inliner lose them at the call boundary."""
+        d = cy.declarator
+        while type(d).__name__ != 'CFuncDeclaratorNode':
+            if type(d).__name__ != 'CNameDeclaratorNode' and hasattr(d, 'base'):
+                d = d.base
+            else:
+                self._unsupported(cy)
+        if getattr(d, 'has_varargs', False) or getattr(cy, 'overridable', False) or cy.body is None:
+            self._unsupported(cy)
+
+        class _Shim:
+            pass
+        sh = _Shim()
+        sh.args, sh.name, sh.star_arg, sh.starstar_arg, sh.body, sh.pos = d.args, self._declname(d.base), None, None, cy.body, cy.pos
+        fn = self.s_DefNode(sh)
+        fn.cy_cdef = True
+        fn.cy_nogil = bool(getattr(d, 'nogil', False))
+        fn.cy_inline = 'inline' in (getattr(cy, 'modifiers', None) or [])
+        try:
+            fn.cy_return = self.cytype(cy.base_type)
+        except AnalysisIncomplete:
+            fn.cy_return = None
+        if type(cy.declarator).__name__ != 'CFuncDeclaratorNode':
+            fn.cy_return = None               # pointer / reference result
+        rebound = {n.id for n in ast.walk(fn) if isinstance(n, ast.Name) and isinstance(n.ctx, (ast.Store, ast.Del))}
+        types = {p: t.text for p, t in fn.cy_argtypes.items() if self._c_scalar(t) and p not in rebound}
+
+        class _Wrap(ast.NodeTransformer):
+            def visit_Name(self, n):
+                if isinstance(n.ctx, ast.Load) and n.id in types:
+                    return ast.copy_location(ast.Call(func=ast.Name(id='__cy_cast__', ctx=ast.Load()),
+                                                      args=[ast.Constant(value=types[n.id]), n], keywords=[]), n)
+                return n
+
+            def visit_FunctionDef(self, n):
+                return n
+            visit_Lambda = visit_FunctionDef
+        if types:
+            fn.body = [_Wrap().visit(st) for st in fn.body]
+        if self._c_scalar(fn.cy_return):
+            for n in ast.walk(fn):
+                if isinstance(n, ast.Return) and n.value is not None:
+                    n.value = ast.copy_location(ast.Call(func=ast.Name(id='__cy_cast__', ctx=ast.Load()),
+                                                         args=[ast.Constant(value=fn.cy_return.text), n.value], keywords=[]), n.value)
+        return fn
+
     # -- expressions -----------------------------------------------------
     _BIN = {'+': ast.Add, '-': ast.Sub, '*': ast.Mult, '/': ast.Div,
             '//': ast.FloorDiv, '%': ast.Mod, '**': ast.Pow,
